@@ -377,6 +377,21 @@ class PEval:
                 if all(self.truth(self.eval(c, env2, fi, depth), c) for c in g.ifs):
                     out.append(self.eval(e.elt, env2, fi, depth))
             return out
+        if isinstance(e, (ast.DictComp, ast.SetComp)) and len(e.generators) == 1:
+            g = e.generators[0]
+            it = self.eval(g.iter, env, fi, depth)
+            if isinstance(it, Opaque):
+                raise PEvalUnsupported("comprehension over opaque")
+            env2 = dict(env)
+            outd, outs = {}, set()
+            for x in list(it):
+                self.assign(g.target, x, env2, fi, depth)
+                if all(self.truth(self.eval(c, env2, fi, depth), c) for c in g.ifs):
+                    if isinstance(e, ast.DictComp):
+                        outd[self.eval(e.key, env2, fi, depth)] = self.eval(e.value, env2, fi, depth)
+                    else:
+                        outs.add(self.eval(e.elt, env2, fi, depth))
+            return outd if isinstance(e, ast.DictComp) else outs
         raise PEvalUnsupported(f"expression {type(e).__name__}: {norm(e)}")
 
     @staticmethod
@@ -468,6 +483,11 @@ class PEval:
             if isinstance(base, dict) and f.attr in ("get", "keys", "values", "items", "copy"):
                 v = getattr(base, f.attr)(*args)
                 return list(v) if f.attr in ("keys", "values", "items") else v
+            if isinstance(base, dict) and f.attr in ("update", "pop", "setdefault") and not isinstance(base.get("__obj__"), bool):
+                try:
+                    return getattr(base, f.attr)(*args)
+                except KeyError:
+                    raise Raised("KeyError", e)
             if isinstance(base, str) and f.attr in ("split", "strip", "lower", "upper", "startswith", "endswith", "replace", "join"):
                 return getattr(base, f.attr)(*args)
             if isinstance(base, Opaque):
